@@ -5,10 +5,19 @@ package profile
 // Contracts for govc (see /verif/DESIGN.md). Comment-only file: contributes no code.
 
 // the profile factory as seen by the handlers (trusted interface contracts: YAML loading is outside the proofs)
-//@ interface ProfileFactory.NormalizeProviderName
+// normProv: the canonical provider name for a URL prefix (a table lookup, fixed after start-up)
+// oaiDeclared(n): the profile the factory hands out for n declares OpenAI compatibility in its API section; forName
+// remembers under which name a profile object was handed out. These three are definitions (C11 is stated over them).
+//@ spec func normProv(n string) string = purecall("normProv", "string", n)
+//@ spec func oaiDeclared(n string) bool = purecall("oaiDeclared", "bool", n)
+//@ ghost field forName string
+//@ interface ProfileFactory.NormalizeProviderName(providerName)
 //@   ensures providerName != "" ==> res != ""
+//@   ensures res == normProv(providerName)
 //@ interface ProfileFactory.GetAvailableProfiles
-//@ interface ProfileFactory.GetProfile
+//@ interface ProfileFactory.GetProfile(profileType)
+//@   modifies ghost forName
+//@   ensures res1 == nil ==> res0 != nil && ghost(res0).forName == profileType
 
 // ---- C20: listing parsers. json.Unmarshal is modelled as "any well-typed value appears in the target" (every byte
 // string is covered by that); the parsers must not panic on any such value and return only named, non-nil models.
